@@ -17,6 +17,7 @@
 //	    (5 kinds) x TTL {1,2} x server in container {yes,no} x all 16 values of the checked operation's bits (other
 //	    operations complemented: PUT and DELETE always differ) x final bit x tables denying/allowing PUT and DELETE
 //	    separately (stored / valid bearer)
+//	R   header representations: see representations.go
 //	P2  every 1-record table (2 actions x op match x 7 targets x 5 filters) stored or carried by a valid bearer token
 //	    x op x role x B bit x object attribute x location
 //	P3  every 2-record table (quick: over a reduced record space, 80 records -> 6400 tables, 4 operations, stored only;
@@ -139,6 +140,8 @@ type tcase struct {
 	TTL1       bool       `json:"ttl1,omitempty"`        // request TTL 1 (replication of tombstones by container nodes)
 	// NotInContainer: the server handling the request is NOT a node of the container (default: it is)
 	NotInContainer bool `json:"not_in_container,omitempty"`
+	// part R (representations.go)
+	Rep *repCase `json:"representation_case,omitempty"`
 }
 
 var opIndex = map[string]int{"GET": 0, "HEAD": 1, "PUT": 2, "DELETE": 3, "SEARCH": 4, "RANGE": 5, "HASH": 6}
@@ -928,7 +931,11 @@ func main() {
 	if r.Replay != "" {
 		var c tcase
 		r.LoadReplay(&c)
-		x.check(newEnv(le), c)
+		if c.Rep != nil {
+			x.partR(le, c.Rep)
+		} else {
+			x.check(newEnv(le), c)
+		}
 		le.Close()
 		r.Finish()
 	}
@@ -975,6 +982,7 @@ func main() {
 	}
 	close(ch)
 	wg.Wait()
+	x.partR(le, nil)
 	le.Close()
 
 	x.mu.Lock()
@@ -983,7 +991,8 @@ func main() {
 	r.Set("violation_classes", x.viols)
 	x.mu.Unlock()
 	r.Set("cases_generated", total)
-	r.Rule("P4: the operation a request is checked as = f(RPC, object type of the PUT header, sender role, TTL) exactly (tombstone PUT -> DELETE unless the SENDER is a container node and TTL is 1; not a function of where it is handled), over RPC/object type x requester x TTL x server-in-container x bits x PUT/DELETE tables, judged on the resolved RequestInfo and on the decision; " +
+	r.Rule("R: every $Object: system filter key x matcher x filter value x {all-proto3-zero-values object, all-fields-set object} x {DENY, ALLOW-then-DENY} evaluated by CheckEACL over five representations of the same header (binary header, HEAD response, GET response, PUT request, local storage); all representations must agree and, for unambiguous keys, equal the reference; " +
+		"P4: the operation a request is checked as = f(RPC, object type of the PUT header, sender role, TTL) exactly (tombstone PUT -> DELETE unless the SENDER is a container node and TTL is 1; not a function of where it is handled), over RPC/object type x requester x TTL x server-in-container x bits x PUT/DELETE tables, judged on the resolved RequestInfo and on the decision; " +
 		"products P1-P3 of the file header, every combination evaluated once; non-trivial = case whose reference decision is not settled by the basic bits alone " +
 		"(sticky bit, eACL record match, bearer/stored table selection, no-match fallback), distinct by the full case description")
 	r.Assume("composition of RequestInfo resolution, CheckBasicACL, StickyBitCheck and CheckEACL (request phase, then header re-check for GET/HEAD) is replicated from pkg/services/object/server.go; the server's own code is not executed",
